@@ -1,4 +1,4 @@
 #!/bin/bash
 # copy contract files from the mirror into /repo (guarded, comment-only files)
 cd /verif/contracts-mirror && find . -name contracts_verif.go | while read f; do mkdir -p /repo/$(dirname $f); cp $f /repo/$f; done
-cd /repo && git add -A $(cd /verif/contracts-mirror && find . -name contracts_verif.go) && git status --short | head
+cd /repo && git status --short | head
